@@ -76,6 +76,8 @@ class Ctx:
         self.poison = None
         self.steps = 0
         self.step_cap = 200000
+        self.clock_ticks = 0
+        self.mtime_clock = 0.0
 
     # ------------------------------------------------------------------ logging
     def rel(self, p):
@@ -386,6 +388,34 @@ def _sim_listdir(path="."):
     return out
 
 
+def _sim_time():
+    """Simulated wall clock: a fixed epoch plus one microsecond per reading, so that elapsed times are
+    small, positive and reproducible (archive member timestamps, which have 2 s resolution, never move)."""
+    ctx = CUR
+    if ctx is None:
+        return FROZEN_TIME
+    ctx.clock_ticks += 1
+    return FROZEN_TIME + ctx.clock_ticks * 1e-6
+
+
+def age_tree(ctx, path):
+    """Simulated time passes between two generations of a directory tree: every entry under `path` gets a
+    modification time 10 s later than anything aged before in this case (the real file system clock is
+    too coarse to tell apart two trees written within the same tick, which no real history would be)."""
+    ctx.mtime_clock += 10.0
+    t = FROZEN_TIME + ctx.mtime_clock
+    for dp, dn, fn in os.walk(path):
+        for n in fn:
+            try:
+                os.utime(os.path.join(dp, n), (t, t))
+            except OSError:
+                pass
+        try:
+            os.utime(dp, (t, t))
+        except OSError:
+            pass
+
+
 def install_seams():
     """Interpose open/mkdir/listdir/clock once per process (they forward to the real thing
     whenever no simulated operation is active)."""
@@ -398,7 +428,7 @@ def install_seams():
     io.open = so
     os.mkdir = _sim_mkdir
     os.listdir = _sim_listdir
-    _time.time = lambda: FROZEN_TIME
+    _time.time = _sim_time
 
 
 class tool_env:
